@@ -60,13 +60,16 @@ def _e(tech, text, note, ref):
 
 CLAIMED["C01"] = _e(
     "Lean 4 proof: SRP degenerate-A algebra (ZMod), gate invariant by induction over every request sequence, "
-    "rejection of A = k*N, Dolev-Yao secrecy for a symbolic accessory; differential correspondence of op scripts on the "
+    "rejection of A = k*N, closed-form expected proof for the configured setup code, pairing origin (the recorded identity is the one sealed under the demonstrating session key), Dolev-Yao attacker against the executable model and with an honest controller in the middle; differential correspondence of op scripts on the "
     "real handler (real SRP/HKDF/ChaCha/Ed25519 recorded as tables) and a numeric hsrp.Server stream with Lean SHA-512",
     "Kernel-checked gate/algebra/rejection theorems for all histories and all A, M; scripts with degenerate A, replayed, "
     "reordered and forged steps run on the real handler each run; secrecy of the code rests on symbolic crypto.",
-    "SRP-6a being a PAKE for A != 0 (mod N), SHA-512/HKDF/AEAD/Ed25519 hardness enter only as the shape of the symbolic "
-    "algebra (C01_symbolic is about a separate symbolic accessory, not tied by the differential run); Lean SHA-512 is "
-    "validated against hashlib, not proved.",
+    "SRP-6a being a PAKE for A != 0 (mod N) is ONE explicit hypothesis (NoForge / NoForgeE, no instance: it is the "
+    "computational assumption; proved necessary to restrict to A != 0); the Dolev-Yao attacker runs against the executable "
+    "PairSetup.step itself (C01_symbolic_exec) and the symbolic proof/HAMK terms denote the model's bytes "
+    "(C01_symbolic_format); the gate is stated in terms of the setup code (C01_gate_code) and the specification side "
+    "(goodM3, ghost exchange) is compared with reference server formulas op by op; SHA-512/HKDF/AEAD/Ed25519 hardness "
+    "enter as the shape of the symbolic algebra / the AeadAuth record; Lean SHA-512 is validated against hashlib, not proved.",
     "DESIGN.md §3 C01",
 )
 CLAIMED["C02"] = _e(
@@ -75,8 +78,10 @@ CLAIMED["C02"] = _e(
     "HAPServerProtocol objects with an independent reference controller (real X25519/Ed25519/ChaCha20-Poly1305)",
     "Kernel-checked iff and its corollaries (unknown id, other key, other exchange, no first step, removed id, "
     "completeness) for all histories; 350+ scripts per quick run on the real protocol with forged/replayed/re-keyed M3.",
-    "Unforgeability/secrecy are hypothesis records with a toy satisfying instance; the driver instantiates crypto from "
-    "answer tables recorded on the real bytes; no symbolic attacker.",
+    "Unforgeability/secrecy are hypothesis records (IdealSig/IdealAEAD/IdealDH, StrongSig/StrongAEAD) with a proved "
+    "symbolic instance; C02_session_origin is Dolev-Yao agreement over the executable model with the DY signature rule as a "
+    "condition on runs (proved for terms, C02_dy_signature_rule; not tied to bytes by an encoding); the driver instantiates "
+    "crypto from answer tables recorded on the real bytes.",
     "DESIGN.md §3 C02",
 )
 CLAIMED["C06"] = _e(
@@ -203,13 +208,16 @@ CLAIMED["C03"] = _e(
     "DESIGN.md §3 C03",
 )
 CLAIMED["C19"] = _e(
-    "Lean 4 proof over a model of the h11 pump and dispatch with h11, urlparse and handlers as arbitrary parameters: no "
-    "exception escapes data_received, one response per EndOfMessage in order unless closing, progress, isolation of a "
-    "failing request; interaction-transcript replay of the real HAPServerProtocol on structured hostile HTTP streams; "
-    "h11-client re-parse oracle",
+    "Lean 4 proof over a model of the h11 pump (all of _process_response incl. the upgrade step) and dispatch with urlparse "
+    "and handlers as arbitrary parameters and h11 as any implementation of its documented connection state machine "
+    "(H11Contract + NoFramingRefusal, satisfiable: miniH11; evaluated on every recorded h11 call of every run): no exception "
+    "escapes any callback, one response per EndOfMessage in order unless closing, progress, isolation of a failing request; "
+    "one interleaved interaction transcript of the real HAPServerProtocol on structured hostile HTTP streams incl. completed "
+    "pair-verify sessions; every callback under a time limit; h11-client re-parse oracle",
     "Kernel-checked for every h11 event sequence and every parameter outcome; ~2000 byte streams per quick run "
     "(valid/pipelined/chunked/truncated/garbage, header bytes >= 0x80, bracket targets). Partial: h11's byte-level "
-    "parsing is trusted library code; C19_ready_partial leaves h11 raising inside _handle_response_ready unproved.",
+    "parsing is trusted library code and 'refuses a permitted send only for framing reasons' is an assumption about h11 "
+    "(C19_ready_needs_contract shows some hypothesis is necessary).",
     "h11 raises nothing but ProtocolError; asyncio never calls data_received after close; BaseException out of scope.",
     "DESIGN.md §3 C19",
 )
